@@ -63,7 +63,7 @@ static void do_op(const char* op) {
   }
   if (i < 0 || i >= ntargets) return;
   const char* nm = op[0] == 'j' ? "join" : op[0] == 't' ? "tryjoin" : "detach";
-  if (retired[i]) {
+  if (retired[i] || tfreed[i]) { /* the handle is known to be invalid: do not issue */
     vr_note("skip %s %d", nm, i);
     return;
   }
@@ -84,6 +84,7 @@ static void* actor_main(void* arg) {
   int a = (int)(long)arg;
   for (int k = 0; k < vh_script.nops[a]; k++) do_op(vh_script.ops[a][k]);
   __sync_fetch_and_add(&actors_done, 1);
+  vr_note("returns 0");
   return NULL;
 }
 
@@ -95,6 +96,7 @@ static void* reaper_main(void* arg) {
     do_op(op);
   }
   reaper_done = 1;
+  vr_note("returns 0");
   return NULL;
 }
 
